@@ -157,7 +157,9 @@ func checkC11(c *Ctx) {
 					a := Args(x)
 					switch {
 					case IsCallTo(x, incF):
-						if traces(st, a[0], func(v ssa.Value) bool { ia, ok := v.(*ssa.IndexAddr); return ok && isBucket(ia) }) && st.Desc(a[1]) == entN+".Time" && st.Desc(a[2]) == recvN+".tick" {
+						if traces(st, a[0], func(v ssa.Value) bool { ia, ok := v.(*ssa.IndexAddr); return ok && isBucket(ia) }) && (st.Desc(a[1]) == entN+".Time" || st.Desc(a[1]) == "UnixNano("+entN+".Time)" && TypeName(a[1].Type()) == "int64") &&
+							(st.Desc(a[2]) == recvN+".tick" || st.Desc(a[2]) == "Nanoseconds("+recvN+".tick)" && TypeName(a[2].Type()) == "int64") {
+							// the entry's own timestamp and the sampler's tick, as values or already as nanoseconds
 							return "inc"
 						}
 						return "inc(" + st.Desc(a[1]) + "," + st.Desc(a[2]) + ")"
@@ -605,6 +607,9 @@ func c11Window(c *Ctx) {
 	name := fn.String()
 	t := fn.Params[1]
 	tn := "UnixNano(" + t.Name() + ")"
+	if TypeName(t.Type()) == "int64" {
+		tn = t.Name() // the caller hands over the timestamp in nanoseconds
+	}
 	traces := func(st *ConcState, v ssa.Value, full string) bool {
 		v = Strip(v)
 		for k := 0; k < 12; k++ {
@@ -644,6 +649,9 @@ func c11Window(c *Ctx) {
 						tk = PN(fn.Params[2])
 					}
 					okNew := nw == "("+tn+" + Nanoseconds("+tk+"))" || nw == "(Nanoseconds("+tk+") + "+tn+")"
+					if len(fn.Params) >= 3 && TypeName(fn.Params[2].Type()) == "int64" {
+						okNew = nw == "("+tn+" + "+tk+")" || nw == "("+tk+" + "+tn+")"
+					}
 					if st.Desc(a[0]) == PN(fn.Params[0])+".resetAt" && okOld && okNew {
 						return "cas"
 					}
